@@ -498,7 +498,97 @@ fn wait_token(t: Option<std::thread::ThreadId>, token: usize, before: usize) {
     }
 }
 
+/// A blocked notice that the broker sends after `listen_for_connection_blocked` has
+/// returned must reach that listener, also when the I/O thread is in the middle of a read
+/// pass at that moment (the registration reaches it through another queue than the bytes).
+fn blocked_listener_race(r: &mut Rng, res: &mut CaseResult) {
+    let (conn, h) = session::open_default(Reflex::default());
+    let mut conn = match conn {
+        Ok(c) => c,
+        Err(e) => {
+            res.inconclusive(format!("handshake: {}", ek(&e)));
+            return;
+        }
+    };
+    // optionally an earlier listener that is being replaced
+    let old = if r.bool() { conn.listen_for_connection_blocked().ok() } else { None };
+    barrier0(&mut conn);
+    // park the I/O thread inside a read pass
+    h.with(|st| st.hold_read = true);
+    for _ in 0..r.usize(1, 5) {
+        h.inject(wire::enc_raw(wire::T_HEARTBEAT, 0, &[]));
+    }
+    if !h.wait(W, |st| st.parked_in_read) {
+        res.inconclusive("the I/O thread did not start reading");
+        h.with(|st| st.hold_read = false);
+        return;
+    }
+    // the application registers its listener; only then does the broker send the notice
+    let rx = match conn.listen_for_connection_blocked() {
+        Ok(rx) => rx,
+        Err(e) => {
+            res.violate("call_failed", format!("listen_for_connection_blocked: {}", ek(&e)));
+            h.with(|st| st.hold_read = false);
+            return;
+        }
+    };
+    let reason = wire::rand_shortstr(r);
+    let mut notes: Vec<Option<String>> = vec![Some(reason.clone())];
+    h.inject(wire::enc_method(0, AMQPClass::Connection(Cn::Blocked(connection::Blocked { reason }))));
+    if r.bool() {
+        h.inject(wire::enc_method(0, AMQPClass::Connection(Cn::Unblocked(connection::Unblocked {}))));
+        notes.push(None);
+    }
+    h.with(|st| st.hold_read = false);
+    barrier0(&mut conn);
+    let got: Vec<Option<String>> = rx
+        .try_iter()
+        .map(|n| match n {
+            ConnectionBlockedNotification::Blocked(s) => Some(s),
+            ConnectionBlockedNotification::Unblocked => None,
+        })
+        .collect();
+    res.obs("notices_sent_after_registration_mid_read_pass", notes.len() as u64);
+    if got != notes {
+        res.violate(
+            "notice_missed_by_registered_listener",
+            format!("listen_for_connection_blocked had returned before the broker sent {:?}; the listener received {:?} (the I/O thread was inside a read pass when the listener was registered)", notes, got),
+        );
+    }
+    if let Some(o) = old {
+        let leftover: Vec<_> = o.try_iter().collect();
+        if !leftover.is_empty() {
+            res.violate("event_to_replaced_listener", format!("the replaced listener received {} notices sent after its replacement", leftover.len()));
+        }
+    }
+    let t = run::spawn("close", move || conn.close());
+    match t.join(W) {
+        J::Done(Ok(())) => {}
+        J::Done(Err(e)) => res.violate("connection_disturbed", format!("Connection::close: {}", ek(&e))),
+        _ => res.violate("connection_disturbed", "close did not return".to_string()),
+    }
+    for p in run::io_panics(&run::take_panics()) {
+        res.violate("io_thread_panic", format!("{} at {}", p.msg, p.loc));
+    }
+    res.sig = crate::rng::fnv_str(&format!("blr{:?}", notes.len()));
+    res.sample = Some(json!({"scenario": "blocked notice sent after the listener was registered while the I/O thread was inside a read pass"}));
+}
+
 pub fn run(rc: &mut RunCtx) {
+    for i in 0..rc.n(32, 600) {
+        let id = format!("blocked-race:{}", i);
+        if !rc.mine(&id) {
+            continue;
+        }
+        rc.begin(&id);
+        let mut res = CaseResult::new(id);
+        let mut r = Rng::for_case(rc.seed, 13, 2_000_000 + i);
+        blocked_listener_race(&mut r, &mut res);
+        if i % 16 != 0 && !res.is_violation() {
+            res.sample = None;
+        }
+        rc.end(res);
+    }
     let seed = rc.seed;
     let n = rc.n(1200, 15000);
     for i in 0..n {
